@@ -153,7 +153,7 @@ class Random(Component):
     rule = ">=1 row kept and >=1 row dropped"
 
     def examples(self, tier):
-        return 150 if tier == "quick" else 1500
+        return 400 if tier == "quick" else 1500
 
     def strategy(self, tier):
         return matcher_case(tier)
